@@ -29,7 +29,7 @@ func (c10StatelessEnv) Set(k, v string)             { c10Store.Set(k, v) }
 
 func checkC10(c *run.Ctx) {
 	n := c.N(100000, 30000000)
-	names := []string{"A", "B", "C", "D", "E", "PATH", "Path", "path", "a", "b", "HOME", "X_1", "Y", "SINIF", "s\u0131n\u0131f", "STRASSE", "stra\u00dfe", "\u212a", "K"}
+	names := []string{"A", "B", "C", "D", "E", "PATH", "Path", "path", "a", "b", "HOME", "X_1", "Y", "SINIF", "s\u0131n\u0131f", "STRASSE", "stra\u00dfe", "\u212a", "K", "opt=level", "=", "a=b=c", "A=B"}
 	body := func(i int, r *rand.Rand, stateless bool) {
 		nent := r.IntN(9)
 		if r.IntN(10) == 0 {
